@@ -153,8 +153,19 @@ def check_store(ctx, fi, ev, tag, E, roots, vtag, preds):
   if pp.get('shape') != 'or':
     # the ACCEPT form: `new if e < threshold else old`.  A strict `<` is false for a NaN error, so this one test is the
     # negation of `isnan(e) | e >= threshold` (the reverse spelling `old if e >= threshold else new` is not: NaN passes)
-    raw = strip_casts(E.args[0]) if E.op in ('cond', 'ite') else (strip_casts(E.args[1][0]) if E.op == 'call' and E.args[1] else None)
+    raws = [strip_casts(x_) for x_ in getattr(ev, 'raw_preds', {}).get(E, [])]
     acc = None
+    for raw in raws:
+      this = None
+      if raw.op == 'cmp' and len(raw.args) == 3 and raw.args[0] in ('<', '>'):
+        this = (raw.args[1], raw.args[2]) if raw.args[0] == '<' else (raw.args[2], raw.args[1])
+      elif ext_name(raw) in ('jax.numpy.less', 'jax.numpy.greater') and len(raw.args[1]) == 2 and not raw.args[2]:
+        this = tuple(raw.args[1]) if ext_name(raw).endswith('less') else (raw.args[1][1], raw.args[1][0])
+      if this is None or (acc is not None and (this[0] is not acc[0] or this[1] is not acc[1])):
+        acc = None
+        break
+      acc = this
+    raw = None
     if raw is not None:
       if raw.op == 'cmp' and len(raw.args) == 3 and raw.args[0] in ('<', '>'):
         acc = (raw.args[1], raw.args[2]) if raw.args[0] == '<' else (raw.args[2], raw.args[1])
